@@ -22,6 +22,10 @@ RULE = ("(a) random permutations of the default 32-group list (the model side pe
         "(b') the systematic family of R-prefixed chains over {C,O} with up to 4 heavy atoms (30 patterns): the whole pool and random 5-8-element subsets "
         "(half of them seeded with a group that has two covering parents sharing an ancestor), each in 2-3 orders; (b'') lists mixing lower-case aromatic and "
         "upper-case symbols, mostly built WITHOUT a mapper argument (the provider's fallback mapper must be wildcard R / ignore_case=True); "
+        "(b3) stars: a carbon centre with 2-3 equally labelled arms that end in different hetero atoms, together with sub-patterns (one arm "
+        "shortened / its end a wildcard / dropped), every pattern written with its arms in its own order; (b4) lists containing patterns with "
+        "reaction-centre bonds <g,h> among ordinary related patterns, mostly passed as dicts, in 3 orders (the model gets every pattern as parsed by a "
+        "fresh parser, which is what FGConfig(**dict) does); "
         "about a quarter of the generated / chain lists give two groups the SAME name (groups are identified by position, "
         "object identity on the Python side, and handed to the model under unique labels); "
         "(b) generated lists of 3-8 patterns drawn from a pool of 80 patterns (chains, branched, ring-closed super-patterns such "
@@ -58,11 +62,15 @@ def generate(seed, tier, ncases=None):
     n_lists = 90 if quick else 3000
     n_chain = 36 if quick else 1200       # subsets of the R-chain pool (shapes with two covering parents, shared ancestors)
     n_ic = 24 if quick else 600           # mixed-case lists, mostly through the no-mapper construction paths
+    n_star = 30 if quick else 800         # stars with equally labelled arms written in different orders
+    n_its = 24 if quick else 600          # lists containing patterns with <g,h> bonds, mostly as dicts
     if ncases:
         n_perm = max(2, ncases // 10)
         n_lists = max(2, ncases // 5)
         n_chain = max(2, ncases // 10)
         n_ic = max(2, ncases // 10)
+        n_star = max(2, ncases // 10)
+        n_its = max(2, ncases // 10)
     cases = []
     dspecs = fc.default_specs()
     for i in range(n_perm):
@@ -127,6 +135,26 @@ def generate(seed, tier, ncases=None):
             if o:
                 rng.shuffle(sp)
             cases.append(_mk("mixed-case", sp, rng.choice(NOMAPPER + NOMAPPER + VIAS), "M%d" % j))
+    for j in range(n_star):
+        rng = lib.rng_for(seed, ID, 400000 + j)
+        specs = fc.star_family(rng)
+        for o in range(2):
+            sp = list(specs)
+            if o:
+                rng.shuffle(sp)
+            cases.append(_mk("star", sp, rng.choice(VIAS), "S%d" % j))
+    for j in range(n_its):
+        rng = lib.rng_for(seed, ID, 450000 + j)
+        pats = rng.sample(fc.ITS_POOL, rng.randint(1, 4)) + rng.sample(fc.ITS_ORDINARY, rng.randint(2, 5))
+        rng.shuffle(pats)
+        specs = fc.named(pats, "r")
+        for o in range(3):
+            sp = list(specs)
+            if o == 1:
+                sp.reverse()
+            elif o == 2:
+                rng.shuffle(sp)
+            cases.append(_mk("its-patterns", sp, rng.choice(["dicts", "dicts", "provider", "query", "build"]), "R%d" % j))
     attach_seed_views(cases, fc.SEEDS if quick else fc.SEEDS + ["11", "12345", "random"])
     for c in cases:
         yield c
@@ -167,6 +195,19 @@ def _corpus():
         c["via"] = via
         yield c
     yield L(["RCOO", "ROO", "RCO", "RO", "RC"], "corpus-twoparents")
+    # a three-way tie at the centre: the same star written with its arms in different orders, one arm shortened
+    for via in ("build", "dicts"):
+        c = L(["C(CO)(CN)CS", "C(CS)(C)CN", "C(CN)(CR)CO", "CC"], "corpus-star")
+        c["via"] = via
+        yield c
+    yield L(["C(CS)(CO)(CN)CCl", "C(CO)(CN)CS", "C(C)(C)C"], "corpus-star")
+    # a pattern with reaction-centre bonds that is NOT last, ordinary related groups on both sides, passed as dicts
+    for pats in (["C=O", "C(=O)(<0,1>R)<1,0>R", "RC(=O)R", "RC=O"], ["RC(=O)R", "RC=O", "C(=O)(<0,1>R)<1,0>R", "C=O", "C<1,2>C", "CC"],
+                 ["C<1,2>C", "CC", "CCC", "C<1,2>CC"]):
+        for via in ("dicts", "provider", "build"):
+            c = L(pats, "corpus-its-%d" % len(pats))
+            c["via"] = via
+            yield c
     # one class name for two groups that are both covering parents of a third (ester and amide, child carbamate)
     dup = [{"name": "carbonyl", "pattern": "C=O"}, {"name": "acyl_derivative", "pattern": "RC(=O)OR", "group_atoms": [1, 2, 3]},
            {"name": "acyl_derivative", "pattern": "RC(=O)N(R)R", "group_atoms": [1, 2, 3]},
